@@ -74,3 +74,21 @@ def getInfo (env : Env) (strict : Bool) (ext : String) (file : Bytes) : GetInfo 
         | .raised _ _ => caught none              -- strict only (C12.lenient_no_raise)
 
 end ReplayModel
+
+namespace ReplayModel
+
+/-- `--raw_data_output` / `ReplayParser(raw_data_output=...)`: the file is written inside
+`_get_hidden_data`, after the player for the resolved version has been built and *before* the
+stream is played — so it does not depend on the mode or on how playing ends. `none`: no file. -/
+def rawDump (env : Env) (ext : String) (file : Bytes) : Option Bytes :=
+  match readContainer env.D env.inflate ext file with
+  | .error _ => none
+  | .ok info =>
+    match env.versionOf info.game info.engine with
+    | none => none
+    | some vs =>
+      match selectVersion env.bundled info.game vs with
+      | .error _ => none
+      | .ok _ => some info.stream
+
+end ReplayModel
